@@ -49,20 +49,21 @@ var Full = Sched{Name: "full"}
 
 // Source is an instrumented io.Reader over data[:Cut] followed by Fail.
 type Source struct {
-	Data    []byte
-	Tail    int // virtual bytes after Data (position-coded), for huge pixel payloads
-	Cut     int // bytes delivered before the terminal condition
-	Fail    error
-	S       Sched
-	Pos     int
-	NReads  int
-	MaxReq  int
-	idx     int
-	ZeroNil int    // number of (0, nil) results returned (never, by construction)
-	Rich    bool   // present as RichSource
-	Pre     []byte // foreign bytes before the call position (rich only)
-	Extra   int    // calls of methods other than Read
-	Deliv   int    // bytes handed out in total, by whatever method (a rewound source has Pos < Deliv)
+	Data     []byte
+	Tail     int // virtual bytes after Data (position-coded), for huge pixel payloads
+	Cut      int // bytes delivered before the terminal condition
+	Fail     error
+	S        Sched
+	Pos      int
+	NReads   int
+	MaxReq   int
+	idx      int
+	ZeroNil  int    // number of (0, nil) results returned (never, by construction)
+	Rich     bool   // present as RichSource
+	Pre      []byte // foreign bytes before the call position (rich only)
+	Extra    int    // calls of methods other than Read
+	DrainBuf int    // size of the reads used to drain the returned stream (0: 32 KiB + 7)
+	Deliv    int    // bytes handed out in total, by whatever method (a rewound source has Pos < Deliv)
 }
 
 func NewSource(data []byte, cut int, fail error, s Sched) *Source {
@@ -432,7 +433,11 @@ func Drain(o *Obs, stream io.Reader, src *Source) {
 			o.Panic = "drain: " + fmt.Sprint(r)
 		}
 	}()
-	buf := make([]byte, 32*1024+7)
+	bs := src.DrainBuf
+	if bs <= 0 {
+		bs = 32*1024 + 7
+	}
+	buf := make([]byte, bs)
 	pos, match, zero := 0, true, 0
 	limit := src.Cut + (1 << 20)
 	for {
